@@ -449,11 +449,12 @@ def _main_run(mod, pid, args, seed):
                 if size <= slot["size"]:
                     slot.update(case=case, detail=detail, sub=sub, size=size, shrunk=True)
 
-    os.makedirs(os.path.join(ROOT, "replays", pid), exist_ok=True)
+    replay_dir = os.environ.get("VERIF_REPLAY_DIR", "replays")  # mutant runs write elsewhere
+    os.makedirs(os.path.join(ROOT, replay_dir, pid), exist_ok=True)
     vio_report = []
     for sig, slot in sorted(new.items()):
         name = hashlib.sha1((sig + json.dumps(slot["case"], sort_keys=True, default=str)).encode()).hexdigest()[:12]
-        path = os.path.join("replays", pid, name + ".json")
+        path = os.path.join(replay_dir, pid, name + ".json")
         with open(os.path.join(ROOT, path), "w") as f:
             json.dump(
                 {"property": pid, "sig": sig, "detail": slot["detail"], "sub": slot["sub"], "case": slot["case"], "seed": seed, "tier": tier},
